@@ -104,6 +104,11 @@ def faults(r, nl):
     add("def-signature", '<%def name="f(a,,)">x</%def>', "Either", py=True)
     add("page-args", '<%page args="a,,"/>', "Either", py=True)
     add("filter-list", "${x | h,,g}", "Syntax", py=True)
+    # faults Python only notices on reaching the END of a signature (dangling operator, unclosed bracket)
+    add("page-args-dangling", '<%page args="a, b=1 +"/>', "Either", py=True)
+    add("block-args-unclosed", '<%block name="bb_" args="a=[1, 2">x</%block>', "Either", py=True)
+    add("call-args-dangling", '<%call expr="f()" args="a, b=lambda">x</%call>', "Either", py=True)
+    add("def-signature-dangling", '<%def name="f(a, b=1 +)">x</%def>', "Either", py=True)
     add("attribute-expression", '<%include file="${1 +}"/>', "Either", py=True)
     add("call-expr", '<%call expr="f(,)">x</%call>', "Either", py=True)
     # an attribute expression whose Python starts on a later line than its ${
